@@ -123,6 +123,25 @@ pub fn judge_v1(c: &Case, st: &mut Stats) -> Verdict {
                 return fail("v1::try_from(&str)", format!("{:?} [incomplete={}]", r, r.is_incomplete()));
             }
         }
+        // the FromStr routes are text entry points too
+        if let Ok(r) = imp::v1_fromstr_header(s) {
+            let ok = match &r {
+                Err(e) => v1_kind_ok(&c.element, e),
+                Ok(_) => false,
+            };
+            if !ok || !r.is_complete() {
+                return fail("str::parse::<v1::Header>", format!("{:?} [incomplete={}]", r, r.is_incomplete()));
+            }
+        }
+        if let Ok(r) = imp::v1_fromstr_addr(s) {
+            let ok = match &r {
+                Err(e) => v1_kind_ok(&c.element, e),
+                Ok(_) => false,
+            };
+            if !ok || r.is_incomplete() {
+                return fail("str::parse::<v1::Addresses>", format!("{:?} [incomplete={}]", r, r.is_incomplete()));
+            }
+        }
     }
     // auto: a complete error
     if let Ok(r) = imp::auto(x) {
